@@ -172,6 +172,64 @@ func c10DFTMod1(c *Ctx) {
 	}
 	two("dft.Evaluator.NewEvaluator[over-ShallowCopy]", dO, func() string { return runDFT(dO) }, func() string { return runDFT(dX) })
 	two("mod1.Evaluator.NewEvaluator[over-ShallowCopy]", mO, func() string { return runMod1(mO) }, func() string { return runMod1(mX) })
+	// the TABLES the copies share with the original (mod1 polynomials, DFT matrices, key set, encoder) are read-only: deep
+	// snapshot by value, the full API of the evaluators over the COPY with non-default arguments (output scaling ≠ 1, complex
+	// scaling, the arcsine variant), snapshot again; and the original's results before / after are bit-identical
+	{
+		type tab struct {
+			name string
+			v    interface{}
+		}
+		m2, errM2 := mod1.NewParametersFromLiteral(params, mod1.ParametersLiteral{LevelQ: params.MaxLevel(), Mod1Type: mod1.CosDiscrete, LogMessageRatio: 8, K: 12, Mod1Degree: 30, DoubleAngle: 2, Mod1InvDegree: 5, LogScale: 45})
+		tabs := []tab{{"mod1.Parameters", &m1}, {"dft.Matrix[CoeffsToSlots]", &c2s}, {"dft.Matrix[SlotsToCoeffs]", &s2c}, {"rlwe.MemEvaluationKeySet", evk}, {"ckks.Parameters", &params}}
+		evals := []struct {
+			name string
+			o, x *mod1.Evaluator
+		}{{"mod1.Parameters", mO, mX}}
+		if errM2 == nil {
+			tabs = append(tabs, tab{"mod1.Parameters[arcsine]", &m2})
+			evals = append(evals, struct {
+				name string
+				o, x *mod1.Evaluator
+			}{"mod1.Parameters[arcsine]", mod1.NewEvaluator(base, polynomial.NewEvaluator(params, base), m2), mod1.NewEvaluator(cpy, polynomial.NewEvaluator(params, cpy), m2)})
+		} else {
+			c.Count("mod1_arcsine_parameters_rejected")
+		}
+		before := make([]string, len(tabs))
+		for i, t := range tabs {
+			before[i] = deepHash(t.v)
+		}
+		origRes := make([]string, len(evals))
+		for i, e := range evals {
+			origRes[i] = runMod1(e.o)
+		}
+		for _, e := range evals {
+			for _, scaling := range []complex128{1, 0.5, complex(0, 2), -3} {
+				_ = Try(func() string {
+					if out, err := e.x.EvaluateAndScaleNew(ct.CopyNew(), scaling); err != nil || out == nil {
+						c.Count("mod1_scaled_evaluation_rejected")
+					}
+					return ""
+				})
+			}
+			_ = Try(func() string { runMod1(e.x); return "" })
+		}
+		_ = Try(func() string { runDFT(dX); return "" })
+		for i, t := range tabs {
+			d := ""
+			if deepHash(t.v) != before[i] {
+				d = "shared-table-changed-by-the-use-of-a-copy"
+			}
+			c.Probe("shared_is_readonly/"+t.name, "-", "C10-readonly-"+t.name, d)
+		}
+		for i, e := range evals {
+			d := ""
+			if r := runMod1(e.o); r != origRes[i] {
+				d = "original-result-differs-after-the-copy-evaluated-with-a-scaling"
+			}
+			c.Probe("copy_independent/mod1.Evaluator.EvaluateAndScaleNew["+e.name+"]", "-", "C10-independent-mod1.Evaluator.EvaluateAndScaleNew", d)
+		}
+	}
 	if c.Thorough() {
 		wantD, wantM := runDFT(dO), runMod1(mO)
 		for _, G := range []int{2, 8} {
